@@ -207,3 +207,63 @@ func vp_C01_sort() {
 	vpReach("reordered", idx[0] != 0)
 	vpReach("done", true)
 }
+
+// vp:check C01 both configs=depth:flat|nested K=60 timeout=1500
+// vp:check C02 both configs=depth:flat K=60 timeout=1500
+// vp_C01_sort_escaped: member order when the names need escaping. Three two-character keys: an arbitrary printable
+// first character and a second one that is, by choice, a plain character, a quote, a backslash, a tab or U+0001 - the
+// last four are spelled with escapes in the text (the quote also as a u-escape), so the order of the spellings differs
+// from the order of the names. Members must come out sorted by their names (code points), spelled canonically.
+func vp_C01_sort_escaped() {
+	keys := make([]string, 3)  // decoded names
+	inSp := make([]string, 3)  // spelling in the input
+	outSp := make([]string, 3) // canonical spelling
+	for i := range keys {
+		first := vpNondetStringN("first"+string(rune('0'+i)), 1)
+		vpAssume(first[0] >= 0x20 && first[0] < 0x7F && first[0] != '"' && first[0] != '\\')
+		switch vpChoice("second"+string(rune('0'+i)), "plain", "quote", "quote-u", "backslash", "tab", "ctrl") {
+		case "plain":
+			c := vpNondetStringN("plain"+string(rune('0'+i)), 1)
+			vpAssume(c[0] >= 0x20 && c[0] < 0x7F && c[0] != '"' && c[0] != '\\')
+			keys[i], inSp[i], outSp[i] = first+c, first+c, first+c
+		case "quote":
+			keys[i], inSp[i], outSp[i] = first+`"`, first+`\"`, first+`\"`
+		case "quote-u":
+			keys[i], inSp[i], outSp[i] = first+`"`, first+`\u00`+`22`, first+`\"`
+		case "backslash":
+			keys[i], inSp[i], outSp[i] = first+`\`, first+`\\`, first+`\\`
+		case "tab":
+			keys[i], inSp[i], outSp[i] = first+"\t", first+`\t`, first+`\t`
+		default:
+			keys[i], inSp[i], outSp[i] = first+"\x01", first+`\u0001`, first+`\u0001`
+		}
+	}
+	vpAssume(keys[0] != keys[1] && keys[0] != keys[2] && keys[1] != keys[2])
+	vals := []string{`1`, `"v"`, `[true,null]`}
+	if vpConfig("depth") == "nested" {
+		vals[2] = `{"` + inSp[1] + `":0,"` + inSp[0] + `":[],"` + inSp[2] + `":{}}`
+	}
+	doc := `{"` + inSp[0] + `":` + vals[0] + `,"` + inSp[1] + `":` + vals[1] + `,"` + inSp[2] + `":` + vals[2] + `}`
+	idx := []int{0, 1, 2}
+	for i := 0; i < 3; i++ {
+		for j := i + 1; j < 3; j++ {
+			if vpKeyLess(keys[idx[j]], keys[idx[i]]) {
+				idx[i], idx[j] = idx[j], idx[i]
+			}
+		}
+	}
+	wantVals := []string{vals[0], vals[1], vals[2]}
+	if vpConfig("depth") == "nested" {
+		inner := []string{`[]`, `0`, `{}`}
+		wantVals[2] = `{"` + outSp[idx[0]] + `":` + inner[idx[0]] + `,"` + outSp[idx[1]] + `":` + inner[idx[1]] + `,"` + outSp[idx[2]] + `":` + inner[idx[2]] + `}`
+	}
+	want := `{"` + outSp[idx[0]] + `":` + wantVals[idx[0]] + `,"` + outSp[idx[1]] + `":` + wantVals[idx[1]] + `,"` + outSp[idx[2]] + `":` + wantVals[idx[2]] + `}`
+	got, err := CanonicalJSON([]byte(doc))
+	vpAssert("accepted", err == nil)
+	if err != nil {
+		return
+	}
+	vpAssert("members-sorted-by-name", string(got) == want)
+	vpReach("reordered", idx[0] != 0)
+	vpReach("done", true)
+}
